@@ -2,6 +2,7 @@
 import json
 
 import common as C
+from cli_args import cli_argv
 from props import C09 as L9
 
 K, kstr = L9.K, L9.kstr
@@ -29,11 +30,18 @@ META = dict(
     rule="case = (outcome stream F/S/N with the last outcome repeating, max_retries as int/str/bool label or default in -2..8, "
          "retry_on_error as bool/str/int/float/bytes label or default, no_result_on_retry, default_retry_count, optional starting "
          "_retries, 0-3 typed user labels, serializer, args); non-trivial iff the first non-failing outcome is at index >= 1, or "
-         "max_retries in {0,1}, or a str-encoded max_retries / retry_on_error / _retries; distinct by canonical JSON of the case",
+         "max_retries in {0,1}, or a str-encoded max_retries / retry_on_error / _retries; distinct by canonical JSON of the case. "
+         "About a fifth of the cases additionally carry a worker / broker configuration (env) the statement does not mention and "
+         "that must not change any observation: propagate_exceptions, validate_params, ack type, ackable or bytes message, "
+         "max_async_tasks / prefetch / max tasks / wait timeout, options given on the worker command line, delivery through a whole "
+         "listen() session, a new Receiver per delivery, sync / async task function, generator dependencies, a failing dependency, "
+         "failure by timeout label or by a falsy exception object, other middlewares around the retry middleware, a subclass of it",
     trusted_base=["model: coq/theories/Retry.v + Labels.v + Base64.v (hand-written transcription of retry_middleware.on_error, the "
                   "NoResultError test in Receiver.callback, kicker re-send)",
                   "CPython str(float)/float(str) round trip (Section hypothesis float_roundtrip)",
-                  "harness/drivers/retry_driver.py + labels_driver.py: recording broker / middleware / result backend"],
+                  "harness/drivers/retry_driver.py + labels_driver.py: recording broker / middleware / result backend; the env "
+                  "building blocks of retry_driver.py (task function shapes, bystander middlewares, listen-session wrapper) and "
+                  "harness/cli_glue.py (real WorkerArgs.from_cli + start_listen with its imports replaced)"],
     assumptions=["label keys are distinct (Python dict); the labels the message is sent with hold values of the five primitive "
                  "types; max_retries and _retries, when present, are int / bool / [+-]digits str (otherwise int() raises: model "
                  "answer DCrash, compared by the correspondence, outside the theorems)"],
@@ -93,6 +101,153 @@ def gen_case(r):
                 mw=dict(count=r.choice([-1, 0, 1, 2, 3, 3, 4, 6]), label=r.random() < .7, nror=r.random() < .6),
                 labels=labels, outs=outs, args=r.choice([[], [1], [1, "x", None], [[1, 2], {"k": 1.5}]]),
                 kwargs=r.choice([{}, {}, {"kw": "v"}, {"n": 3, "l": [True]}]), guard=30)
+
+
+# ------------------------------------------------------------------ the worker / broker configuration around the middleware
+# (retry_driver's "env"): nothing of it is mentioned by the statement, so none of it may change a single observation.
+MW_ANY = ["plain", "sync_err", "async_err", "touch", "hooks", "copy", "post_save_raises"]
+MW_BEFORE_RETRY = MW_ANY + ["subst"]        # a hook that substitutes result.error is only placed before the retry middleware
+FN_KINDS = ["sync", "agen_dep", "gen_dep", "sync_gen_dep", "dep_fails"]
+TIMEOUT_VALUES = [{"t": "int", "v": "1"}, {"t": "float", "v": "3fe0000000000000"}, {"t": "str", "v": K("0.25")},
+                  {"t": "int", "v": "2"}, {"t": "float", "v": "3fb999999999999a"}]
+
+
+def with_env(case, env):
+    """attach env to a copy of case; a failure by timeout needs the task's `timeout` label"""
+    case = dict(case, labels=list(case["labels"]), env=env)
+    tv = env.pop("timeout_label", None)
+    if tv is not None and lab(case, "timeout") is None:
+        case["labels"].append([K("timeout"), tv])
+    if env.get("fail_by") == "timeout" and lab(case, "timeout") is None:
+        case["labels"].append([K("timeout"), TIMEOUT_VALUES[0]])
+    return case
+
+
+def recv_opts(env, r=None):
+    """the worker command line for env's receiver options (spellings varied when an rng is given)"""
+    at = env.get("ack")
+    if at is not None and r is not None:
+        at = r.choice([at, at, at.upper(), at.title()])
+    o = dict(ack_type=at, P=env.get("P", 0), N=env.get("N"), wtt=env.get("wtt"), no_parse=not env.get("validate", True),
+             no_propagate=not env.get("propagate", True))
+    if "A" in env:
+        o["A"] = env["A"]
+        if env["A"] is None:
+            o["a_spelling"] = 0 if r is None else r.choice([0, -1])
+    return o
+
+
+def gen_env(r):
+    env = {}
+    fn = r.choice(["async"] * 4 + FN_KINDS)
+    if fn != "async":
+        env["fn"] = fn
+    k = r.random()
+    if k < .2:
+        env["fail_by"] = "falsy"
+    elif k < .4 and fn not in ("sync", "sync_gen_dep"):
+        env["fail_by"] = "timeout"
+        env["timeout_label"] = r.choice(TIMEOUT_VALUES)
+    elif k < .5:
+        env["timeout_label"] = r.choice(TIMEOUT_VALUES)     # a timeout that is never reached
+    if r.random() < .5:
+        env["propagate"] = False
+    if r.random() < .3:
+        env["validate"] = False
+    if r.random() < .5:
+        env["ack"] = r.choice(["when_received", "when_executed", "when_saved"])
+    if r.random() < .6:
+        env["ackable"] = r.choice(["sync", "async"])
+    if r.random() < .3:
+        env["via"] = "listen"
+    if r.random() < .5:
+        env["A"] = r.choice([1, 2, 10, None, None, 0])
+    if r.random() < .3:
+        env["P"] = r.choice([1, 3])
+    if r.random() < .2:
+        env["N"] = r.choice([1, 5])
+    if r.random() < .2:
+        env["wtt"] = r.choice([0.5, 2.0])
+    if r.random() < .2:
+        env["fresh"] = True
+    if r.random() < .5:
+        for pos, kinds in (("mw_before", MW_BEFORE_RETRY), ("mw_mid", MW_BEFORE_RETRY), ("mw_after", MW_ANY)):
+            n = r.choice([0, 0, 1, 1, 2])
+            if n:
+                env[pos] = [r.choice(kinds) for _ in range(n)]
+        if r.random() < .3:
+            env["mw_late"] = True
+    if r.random() < .25:
+        env["retry_cls"] = "sub"
+    if r.random() < .35:
+        env["cli"] = cli_argv(recv_opts(env, r))
+    return env
+
+
+def gen_env_case(r):
+    c = gen_case(r)
+    if r.random() < .5:
+        # make sure the retry loop has something to do: enabled, a few failures first
+        c["labels"] = [kv for kv in c["labels"] if kstr(kv[0]) not in ("retry_on_error", "_retries")]
+        c["mw"]["label"] = True
+    return with_env(c, gen_env(r))
+
+
+def env_grid():
+    """every single deviation from the default worker configuration, each on two of four retry situations - always run"""
+    def mk(outs, labels, count, label, nror):
+        return dict(ser="json", mw=dict(count=count, label=label, nror=nror), labels=labels, outs=outs, args=[1, "x"],
+                    kwargs={"kw": "v"}, guard=30)
+    bases = [
+        mk(["F", "F", "S"], [[K("max_retries"), {"t": "int", "v": "3"}], [K("retry_on_error"), {"t": "bool", "v": True}]], 2, False, True),
+        mk(["F"], [[K("u"), {"t": "str", "v": K("user")}]], 4, True, False),
+        mk(["F", "N"], [[K("max_retries"), {"t": "str", "v": K("5")}], [K("retry_on_error"), {"t": "str", "v": K("True")}]], 1, False, True),
+        mk(["F"], [[K("retry_on_error"), {"t": "bool", "v": False}], [K("max_retries"), {"t": "int", "v": "4"}]], 3, True, False),
+    ]
+    envs = [{}, {"propagate": False}, {"validate": False}, {"fresh": True}, {"retry_cls": "sub"},
+            {"ackable": "sync"}, {"ackable": "async"},
+            {"via": "listen"}, {"via": "listen", "A": None, "P": 2}, {"via": "listen", "N": 1, "wtt": 0.5, "ackable": "async"},
+            {"via": "listen", "A": 2, "propagate": False, "ackable": "sync"},
+            {"fail_by": "falsy"}, {"fail_by": "falsy", "propagate": False},
+            {"mw_mid": ["sync_err"], "mw_late": True}, {"mw_before": ["copy"], "mw_after": ["touch"], "mw_late": True, "retry_cls": "sub"}]
+    envs += [{"ack": a, "ackable": k} for a in ("when_received", "when_executed", "when_saved") for k in ("sync", "async")]
+    envs += [{"fn": f} for f in FN_KINDS] + [{"fn": f, "propagate": False} for f in FN_KINDS]
+    envs += [{"fail_by": "timeout", "timeout_label": v} for v in TIMEOUT_VALUES[:3]]
+    envs += [{"fail_by": "timeout", "timeout_label": TIMEOUT_VALUES[1], "fn": "dep_fails", "via": "listen", "A": None, "wtt": 0.5},
+             {"fail_by": "timeout", "timeout_label": TIMEOUT_VALUES[0], "fn": "agen_dep", "propagate": False}]
+    envs += [{"mw_before": [k]} for k in MW_BEFORE_RETRY] + [{"mw_mid": [k]} for k in MW_BEFORE_RETRY] + [{"mw_after": [k]} for k in MW_ANY]
+    for e in ({"propagate": False}, {"validate": False}, {"ack": "when_received", "ackable": "sync"}, {"A": None, "via": "listen"},
+              {"propagate": False, "validate": False, "ack": "when_executed", "A": 3, "P": 1, "N": 5, "wtt": 2.0, "ackable": "async"}, {}):
+        envs.append(dict(e, cli=cli_argv(recv_opts(e))))
+    # every env on the fail-fail-success situation and on one of the other three in turn
+    return [with_env(b, dict(e)) for i, e in enumerate(envs) for b in (bases[0], bases[1 + i % 3])]
+
+
+def count_env(rep, c, o):
+    env = c.get("env")
+    if env is None:
+        rep.count("env:none (default worker: Receiver.callback, propagate on, bytes message)")
+        return
+    rep.count("env:cases")
+    rep.count("env:configured-via=" + ("command line" if env.get("cli") is not None else "Receiver(...)"))
+    rep.count("env:propagate_exceptions=%s" % env.get("propagate", True))
+    rep.count("env:validate_params=%s" % env.get("validate", True))
+    rep.count("env:ack_type=%s" % env.get("ack"))
+    rep.count("env:message=" + ("bytes" if not env.get("ackable") else "ackable/%s-ack" % env["ackable"]))
+    rep.count("env:delivery=" + ("listen() session" if env.get("via") == "listen" else "callback"))
+    rep.count("env:max_async_tasks=%s" % (env["A"] if "A" in env else "default"))
+    rep.count("env:task-function=" + env.get("fn", "async"))
+    rep.count("env:failure-by=" + env.get("fail_by", "raise"))
+    rep.count("env:timeout-label=%s" % (lab(c, "timeout") is not None))
+    rep.count("env:receiver-object=" + ("new per delivery" if env.get("fresh") or env.get("via") == "listen" else "reused"))
+    rep.count("env:retry-middleware-class=" + env.get("retry_cls", "base"))
+    for pos in ("mw_before", "mw_mid", "mw_after"):
+        for k in env.get(pos, []):
+            rep.count("env:other-middleware:%s:%s" % (pos[3:], k))
+    if env.get("mw_late"):
+        rep.count("env:middlewares-added-after-receiver-construction")
+    if len(o.get("execs", [])) > 1:
+        rep.count("env:cases-with-a-re-send")
 
 
 def lab(case, name):
@@ -288,6 +443,7 @@ def explore(ctx, rep, cases, label, shard=150):
         rep.count("no_result_on_retry:%s" % c["mw"]["nror"])
         rep.count("oracle-domain:%s" % (in_domain(c) is not None))
         rep.count("executions:%d" % len(o["execs"]))
+        count_env(rep, c, o)
         ex = o["execs"]
         if ex:
             last = ex[-1]
@@ -339,9 +495,11 @@ def run(ctx):
     broken = explore(ctx, rep, grid(), "grid")
     r = ctx.sub_rng("gen")
     broken = explore(ctx, rep, [gen_case(r) for _ in range(ctx.n(1500, 40000))], "main") or broken
+    re_ = ctx.sub_rng("env")
+    broken = explore(ctx, rep, env_grid() + [gen_env_case(re_) for _ in range(ctx.n(400, 12000))], "env") or broken
     if (broken or any(not o["ok"] for o in rep.obligations)) and not rep.failures:
         r2 = ctx.sub_rng("search")
-        explore(ctx, rep, [gen_case(r2) for _ in range(ctx.n(6000, 60000))], "search")
+        explore(ctx, rep, [gen_env_case(r2) if i % 4 == 3 else gen_case(r2) for i in range(ctx.n(6000, 60000))], "search")
     return rep.finish({})
 
 
@@ -358,6 +516,9 @@ def replay(ctx, path):
             i, e["out"], e["task_id"], e["stored"], e["is_err"], e["resent"], e["raised"],
             L9.as_map(e["labels"]).get("_retries")))
     print("statement domain (enabled, max_retries):", in_domain(c))
+    if c.get("env") is not None:
+        print("worker configuration (env):", json.dumps(c["env"]), "| Receiver kwargs from the command line:", o.get("cli_kw"),
+              "| acks:", o.get("acks"), "| dependency teardown:", o.get("teardown"))
     fails = []
     oracle(c, o, lambda what, observed, expected: fails.append((what, observed, expected)))
     lit = case_literal(c, o)
